@@ -57,8 +57,14 @@ func dispatch(kind string, args []*Sexp) (out *Sexp) {
 	case "optprog":
 		return runOptProg(args)
 	}
+	switch kind {
+	case "compile":
+		return runCompile(args)
+	}
 	return L(A("unknown-kind"), A(kind))
 }
+
+var flushEach = os.Getenv("UGOH_FLUSH") != ""
 
 func main() {
 	in := bufio.NewReaderSize(os.Stdin, 1<<20)
@@ -73,6 +79,9 @@ func main() {
 			} else {
 				r := dispatch(s.List[2].Atom, s.List[3:])
 				fmt.Fprintf(out, "%s %s\n", s.List[1].Atom, r.String())
+				if flushEach {
+					out.Flush()
+				}
 			}
 		}
 		if err != nil {
